@@ -48,6 +48,16 @@ theorem mainShape_ok : GenProto.mainShape =
     ["compile.Compile", "findCommonAncestor", "verifyAncestry", "gopts.Plugins.Handle",
      "pluginHandle.Close", "pluginHandle.ServiceGenerator", "gen.Generate"] := by decide
 
+/-! ### C12 (multiplexing glue) -/
+
+/-- `multiplex.Handler.Handle` cuts the envelope name once, at the first colon, looks the service up under
+the first part and hands the second part on (`splitColon`, `dispatch`). -/
+theorem muxSplit_ok : GenProto.muxSplit =
+    ["strings.SplitN(name, \":\", 2)", "h.services[parts[0]]", "parts[0]", "parts[1]"] := by decide
+
+/-- `multiplex.client.Send` sends `<service>:<method>` (`muxName`). -/
+theorem muxJoin_ok : GenProto.muxJoin = ["c.name + \":\" + name"] := by decide
+
 /-! ### C17 -/
 
 /-- the plugin path check is `strings.Contains(path, "..")` (`containsDotDot`). -/
